@@ -1,6 +1,6 @@
 (* Case runner for C10: decodes harness cases (scripted interactive sessions, web request mixes),
    runs M_Session, judges the implementation's observables.  No proofs here. *)
-From PV Require Import Base.Term M_Config M_Session S_Session R_C19 Gen.Gen_ConfigTable Gen.Gen_CommandTable.
+From PV Require Import Base.Term M_Config M_Flags M_Session S_Session R_C19 Gen.Gen_ConfigTable Gen.Gen_CommandTable.
 Open Scope string_scope.
 Open Scope Z_scope.
 
@@ -70,6 +70,34 @@ Definition run_C10 (i : term) : term :=
     let e := {| e_fields := config_fields; e_pf := pf_of (gn i 1); e_commands := pprof_commands; e_help := config_help_keys;
                 e_types := []; e_default_type := "" |} in
     TL [TL (run_websrc e (cfg_of (gn i 2)) (gl (gn i 3))); TZ 1]
+  else if String.eqb op "e2e" then
+    (* pprof <flags> p: the session starts from the option state the flags describe *)
+    let e := env_of i in
+    match apply_flags (e_pf e) config_fields (default_cfg config_fields) (flags_of (gn i 4)) false with
+    | Err _ => TL [TS "refused"; TZ 1; TZ 0]
+    | Ok c0 =>
+        let start := session_start e c0 in
+        TL [of_cfg start;
+            TL (map (fun ce => TL [TL (map of_event (snd ce)); of_cfg (fst ce)]) (run_lines e start (gss (gn i 5))));
+            TZ 1]
+    end
+  else if String.eqb op "e2eweb" then
+    (* pprof <flags> -http=... p *)
+    let e := {| e_fields := config_fields; e_pf := pf_of (gn i 1); e_commands := pprof_commands; e_help := config_help_keys;
+                e_types := []; e_default_type := "" |} in
+    match apply_flags (e_pf e) config_fields (default_cfg config_fields) (flags_of (gn i 2)) false with
+    | Err _ => TL [TS "refused"; TZ 1; TZ 0]
+    | Ok cur =>
+        TL [of_cfg cur;
+            TL (map (fun r => match endpoint_of (gs (gn r 0)) with
+                              | Some ep => match web_request_cfg e cur ep (values_of (gn r 1)) with
+                                           | Some _ => TL [TZ 0; TZ 1]
+                                           | None => TL [TZ 400; TZ 1]
+                                           end
+                              | None => TL [TZ 200; TZ 1]
+                              end) (gl (gn i 3)));
+            TZ 1]
+    end
   else TL [TS "unknown-op"].
 
 (* web: status 0 in the model = "a report is generated" (its own errors, e.g. a bad regexp, are
@@ -100,6 +128,8 @@ Definition eqv_C10 (i m o : term) : bool :=
   then web_eqv (gl (gn m 0)) (gl (gn o 0)) && term_eqb (gn m 1) (gn o 1) && term_eqb (gn m 2) (gn o 2)
   else if String.eqb (gs (gn i 0)) "websrc"
   then websrc_eqv (gl (gn m 0)) (gl (gn o 0)) && term_eqb (gn m 1) (gn o 1)
+  else if String.eqb (gs (gn i 0)) "e2eweb" && negb (String.eqb (gs (gn m 0)) "refused")
+  then term_eqb (gn m 0) (gn o 0) && web_eqv (gl (gn m 1)) (gl (gn o 1)) && term_eqb (gn m 2) (gn o 2)
   else term_eqb m o.
 
 (* ---- the specification, evaluated on the implementation's observable *)
@@ -124,6 +154,12 @@ Definition spec_C10 (i o : term) : bool :=
   else if String.eqb op "websrc" then
     (* every request answered as in a fresh process with the same options; profile untouched *)
     forallb (fun r => String.eqb (gs (gn r 0)) "s" || gb (gn r 1)) (gl (gn o 0)) && gb (gn o 1)
+  else if String.eqb op "e2e" then
+    if String.eqb (gs (gn o 0)) "refused" then gb (gn o 1) && (gz (gn o 2) =? 0)   (* refused: said so, ran nothing *)
+    else spec_lines (gn o 0) (gl (gn o 1)) && gb (gn o 2)
+  else if String.eqb op "e2eweb" then
+    if String.eqb (gs (gn o 0)) "refused" then gb (gn o 1) && negb (gb (gn o 2))
+    else forallb (fun r => gb (gn r 1)) (gl (gn o 1)) && gb (gn o 2)
   else true.
 
 Definition cls_C10 (i : term) : list Z := [].
